@@ -714,6 +714,14 @@ def _tor(a):
 # Formulas with generator-side quantifiers
 # ---------------------------------------------------------------------------
 
+class Stale(object):
+    """Goal of an obligation that the contract set-up cannot decide (e.g. the code uses an attribute
+    the set-up object was built without): reported as undecided, never as refuted."""
+
+    def __init__(self, reason):
+        self.reason = reason
+
+
 class Forall(object):
     """forall k_0..k_{m-1} with 0 <= k_i < ranges[i] (ranges[i] None => unbounded Int,
     'real' => a real variable):  body(*ks)   where body returns a formula
